@@ -28,7 +28,8 @@ EXPLANATION = (
     'projection of the rolled-back value and recording of the change use one '
     'key per instance in both Dykstra loops (L4). The identities hold for all '
     'real kernels, sizes and loop positions; only the finite set of discrete '
-    'configurations is enumerated, completely.')
+    'configurations is enumerated, completely.'
+    ' Also decided: the skip test of a constraint group names the dimension the partial projection iterates that group index over (L3s dimension binding); the unimodal split and the joint-unimodality centre are the same function of the size (O3); directions validated through .lower() are dispatched case-insensitively (V3c); constraints used as dictionary keys are tuples (T4).')
 ASSUMPTIONS = ['tf.maximum/minimum are exact max/min; list cells of '
                '_unstack_nd are distinct tensors for distinct indices',
                'configurations excluded by verify_hyperparameters (monotone '
